@@ -133,6 +133,8 @@ pub fn repair(store: &TensorStore) -> Result<RepairStats> {
     }
 
     // 3. Delete orphans
+    #[cfg(neumann_verif)]
+    tensor_store::verif_hooks::yield_point("blob.repair.counted");
     for orphan_key in orphan_keys {
         if store.delete(&orphan_key).is_ok() {
             stats.orphans_deleted += 1;
